@@ -33,7 +33,8 @@ def load_tables(mods=None):
 
 
 def mk_step(enc, arch=6, sec=True, virt=False, vmsa=False, mode=None, it='any', e_sym=False, sym_sys=None,
-            set_sys=None, tables=None, expect_class=True, extra_assume=None, fix=None):
+            set_sys=None, tables=None, expect_class=True, extra_assume=None, fix=None, failed_cond=False,
+            havoc_scratch=False, foreign_config=None):
     """unit: all fields of the encoding, all registers/flags/mode symbolic"""
     cache = {}
     from vf import known
@@ -63,6 +64,19 @@ def mk_step(enc, arch=6, sec=True, virt=False, vmsa=False, mode=None, it='any', 
             if 'oracle' not in box:
                 box['oracle'] = isa.step(m.pre, E, f) + (m.pre,)
             exp, unp, info, pre0 = box['oracle']
+            if failed_cond:
+                # oracle-free statement of "a failed condition makes the instruction a no-op": nothing changes
+                # except PC += length and the IT-state advance (uses the row only to locate the condition field)
+                if 'noop' not in box:
+                    N = pre0.copy()
+                    N.R['PC'] = pre0.R['PC'] + E.length // 8
+                    if E.thumb:
+                        it0 = pre0.it()
+                        N.set_it(z3.If(P.bits(it0, 3, 0) != 0, P.it_advance(it0), it0))
+                    box['noop'] = N
+                exp = box['noop']
+                env.assume(z3.Not(info['passed']))
+                env.assume(z3.Not(info['undefined']))
             m.exp, m.unp, m.info = exp, unp, info
             m.pre_ident = pre0
             env.assume(z3.Not(unp))
@@ -72,6 +86,19 @@ def mk_step(enc, arch=6, sec=True, virt=False, vmsa=False, mode=None, it='any', 
             if extra_assume:
                 env.assume(extra_assume(m))
             arm = m.arm
+            if havoc_scratch:
+                # per-step scratch state holds arbitrary left-overs of whatever ran before (C20)
+                arm.opcode = env.var('scratch_opcode', 32)
+                arm.opcode_len = 16 if bool(env.boolvar('scratch_len16')) else 32
+                arm.executed_opcode = object()
+                arm.registers.changed_registers = [env.boolvar('scratch_chg%d' % i) for i in range(16)]
+                arm.run = True
+            if foreign_config is not None:
+                # another processor instance is created (possibly from a different configuration file) between
+                # this instance's construction and its step (C20 isolation)
+                from armulator.armv6.arm_v6 import ArmV6 as _A
+                fcfg, fov = MC.std_cfg(**foreign_config)
+                _A(MC.config_path(**fov))
             m.decoded = []
             m.executed = []
             od, oe = arm.decode_instruction, arm.execute_instruction
